@@ -93,7 +93,12 @@ func genC19(rng *rand.Rand, n int, emit func(Case), dist map[string]int) {
 		var nextLog []string
 		e := echo.New()
 		e.Logger.SetOutput(io.Discard)
-		e.Use(middleware.ProxyWithConfig(middleware.ProxyConfig{Balancer: c19RecBalancer{rrb, &nextLog}, RetryCount: R}))
+		pcfg := middleware.ProxyConfig{Balancer: c19RecBalancer{rrb, &nextLog}, RetryCount: R}
+		rewriting := rng.Intn(2) == 0
+		if rewriting {
+			pcfg.Rewrite = map[string]string{"/api/*": "/$1", "/files/*": "/static/$1", "/pair/*/of/*": "/p/$2/$1"}
+		}
+		e.Use(middleware.ProxyWithConfig(pcfg))
 		cur := append([]string(nil), init...)
 		nops := 10 + rng.Intn(31)
 		var ops, outs []Sx
@@ -152,9 +157,26 @@ func genC19(rng *rand.Rand, n int, emit func(Case), dist map[string]int) {
 				method := methods[rng.Intn(len(methods))]
 				p := paths[rng.Intn(len(paths))]
 				q := queries[rng.Intn(len(queries))]
+				if rewriting && rng.Intn(2) == 0 {
+					p = []string{"/api/", "/api/a%2Fb", "/api/v1", "/files/", "/files/x/y.txt", "/pair/left/of/right", "/pair/l/of/", "/api"}[rng.Intn(8)]
+				}
 				target := p
 				if q != "" {
 					target += "?" + q
+				}
+				// the documented rewrite: `*` captures (possibly nothing) up to the end of the request URI
+				upstreamURI := target
+				if rewriting {
+					switch {
+					case strings.HasPrefix(target, "/api/"):
+						upstreamURI = "/" + target[len("/api/"):]
+					case strings.HasPrefix(target, "/files/"):
+						upstreamURI = "/static/" + target[len("/files/"):]
+					case strings.HasPrefix(target, "/pair/") && strings.Contains(target, "/of/"):
+						rest := target[len("/pair/"):]
+						k := strings.Index(rest, "/of/")
+						upstreamURI = "/p/" + rest[k+4:] + "/" + rest[:k]
+					}
 				}
 				body := fmt.Sprintf("payload-%d", rng.Intn(1000000))
 				var rd io.Reader
@@ -217,11 +239,11 @@ func genC19(rng *rand.Rand, n int, emit func(Case), dist map[string]int) {
 					} else {
 						h := hs[0]
 						wantCode := 200
-						if q == "code=404" {
+						if uu, perr := url.Parse(upstreamURI); perr == nil && uu.Query().Get("code") == "404" {
 							wantCode = 404
 						}
-						if h.name != attempts[len(attempts)-1] || h.method != method || h.uri != target || h.body != body || h.hdr != custom {
-							ok, why = false, fmt.Sprintf("upstream saw %+v, sent %s %s body=%q X-Custom=%q via attempts %v", h, method, target, body, custom, attempts)
+						if h.name != attempts[len(attempts)-1] || h.method != method || h.uri != upstreamURI || h.body != body || h.hdr != custom {
+							ok, why = false, fmt.Sprintf("upstream saw %+v, sent %s %s body=%q X-Custom=%q via attempts %v (expected upstream URI %s)", h, method, target, body, custom, attempts, upstreamURI)
 						}
 						if rec.Code != wantCode || rec.Body.String() != "body-from-"+h.name || rec.Header().Get("X-Up-Header") != "v-"+h.name {
 							ok, why = false, fmt.Sprintf("upstream %s answered %d, client got %d body=%q", h.name, wantCode, rec.Code, rec.Body.String())
